@@ -34,6 +34,7 @@ type Step struct {
 	Den    int           `json:"den,omitempty"`
 	Quiet  bool          `json:"quiet,omitempty"` // no queries after this step (queries reload evicted objects)
 	Agg    string        `json:"agg,omitempty"`   // aggregation type of a put ("" = sum)
+	Tick   int           `json:"tick,omitempty"`  // put only: the trees cache's write-back runs while the Tick-th tree of this Put is being read back from disk
 }
 
 type Query struct {
@@ -61,6 +62,14 @@ func init() {
 type store struct {
 	s   *storage.Storage
 	cfg *config.Server
+
+	// write-back tick (only used on the storage with maintenance): armed by a put step, fired from the trees cache's
+	// FromBytes, i.e. between the cache reads and the cache writes of one Storage.Put
+	tickAt, tickSeen   int
+	tickFired          bool
+	tickLen, tickSaved int
+	recording          bool
+	saved              map[string]bool
 }
 
 func open(dir string) *store {
@@ -84,7 +93,29 @@ func (st *store) reopen() {
 	if err != nil {
 		panic(err)
 	}
-	s.VerifWrapCaches(nil)
+	s.VerifWrapCaches(func(cacheName, key string) {
+		if st.recording && cacheName == "trees" {
+			st.saved[key] = true
+		}
+	})
+	tc := s.VerifCache("trees")
+	orig := tc.FromBytes
+	tc.FromBytes = func(k string, v []byte) (interface{}, error) {
+		if st.tickAt > 0 {
+			st.tickSeen++
+			if st.tickSeen == st.tickAt {
+				st.tickAt = 0
+				// what the periodic write-back task does to the trees cache, at this very moment
+				st.tickLen = tc.Len()
+				st.saved, st.recording = map[string]bool{}, true
+				tc.WriteBack()
+				tc.VerifBarrier()
+				st.recording = false
+				st.tickSaved, st.tickFired = len(st.saved), true
+			}
+		}
+		return orig(k, v)
+	}
 	st.s = s
 }
 
@@ -281,7 +312,17 @@ func run(in Input) (res lib.Result) {
 
 	for _, s := range in.Steps {
 		counts[s.Kind]++
+		withS.tickAt, withS.tickSeen, withS.tickFired = 0, 0, false
+		if s.Kind == "put" && s.Tick > 0 {
+			withS.tickAt = s.Tick
+		}
 		errW := withS.apply(s, seq)
+		withS.tickAt = 0
+		tickLen, tickSaved := 0, 0
+		if withS.tickFired {
+			tickLen, tickSaved = withS.tickLen, withS.tickSaved
+			counts["tick"]++
+		}
 		errP := ""
 		if !isMaint(s.Kind) {
 			errP = plainS.apply(s, seq)
@@ -331,7 +372,9 @@ func run(in Input) (res lib.Result) {
 		if s.Kind == "put" {
 			slots = (s.Until - s.From + 9) / 10
 		}
-		steps = append(steps, "{| so_kind := "+kindCoq(s.Kind)+"; so_slots := "+lib.N(uint64(slots))+"; so_err_with := "+lib.Bool(errW != "")+
+		steps = append(steps, "{| so_kind := "+kindCoq(s.Kind)+"; so_slots := "+lib.N(uint64(slots))+
+			"; so_ticked := "+lib.Bool(withS.tickFired)+"; so_tick_len := "+lib.N(uint64(tickLen))+"; so_tick_saved := "+lib.N(uint64(tickSaved))+
+			"; so_err_with := "+lib.Bool(errW != "")+
 			"; so_err_plain := "+lib.Bool(errP != "")+"; so_answers := "+lib.List(answers)+" |}")
 	}
 
@@ -371,7 +414,7 @@ func run(in Input) (res lib.Result) {
 	res.NonTrivial = nontrivial
 	res.Feat = map[string]interface{}{"stream": in.Stream, "steps": len(in.Steps), "queries": len(in.Queries), "max_nodes": mn,
 		"n_put": counts["put"], "n_delete": counts["delete"], "n_evict": counts["evict"], "n_restart": counts["restart"],
-		"n_writeback": counts["writeback"], "objects_reloaded": reloaded}
+		"n_writeback": counts["writeback"], "n_tick": counts["tick"], "objects_reloaded": reloaded}
 	for c, n := range caches {
 		res.Feat["evict_"+c] = n
 	}
@@ -701,8 +744,64 @@ func genAligned(r *rand.Rand) Input {
 	return in
 }
 
+// ---- stream "wbtick": the periodic write-back of the trees cache fires INSIDE a Put, while a tree is being read back
+// from disk (between the cache reads and the cache writes of that Put).  Single-slot uploads into neighbouring slots,
+// the trees evicted (so that the next upload, which makes a higher-level bucket present, reads its children back from
+// disk), that upload with the tick and without queries afterwards (a query would touch the trees again), then
+// eviction or Close+New, then the queries ----
+func genWbTick(r *rand.Rand) Input {
+	in := Input{Stream: "wbtick"}
+	b := boundary(r, lib.Pick(r, []int64{100, 1000}))
+	name := lib.Pick(r, []string{"app0{}", "app0{t=a}"})
+	st := func(i int) []treeu.Stack {
+		res := []treeu.Stack{{Key: []byte("a;b"), V: uint64(lib.Range(r, 1, 20))}}
+		if lib.Chance(r, 0.5) {
+			res = append(res, treeu.Stack{Key: []byte(fmt.Sprintf("a;c%d", i)), V: uint64(lib.Range(r, 1, 9))})
+		}
+		return res
+	}
+	slots := r.Perm(10)
+	n0 := lib.Range(r, 1, 2)
+	for i := 0; i < n0; i++ {
+		f := b + 10*int64(slots[i])
+		in.Steps = append(in.Steps, Step{Kind: "put", Name: name, From: f, Until: f + 10, Stacks: st(i)})
+	}
+	switch r.Intn(3) {
+	case 0:
+		in.Steps = append(in.Steps, Step{Kind: "restart", Quiet: true})
+	default:
+		in.Steps = append(in.Steps, Step{Kind: "evict", Cache: "trees", Num: 1, Den: 1, Quiet: true})
+	}
+	nt := lib.Range(r, 1, 2)
+	for i := 0; i < nt; i++ {
+		f := b + 10*int64(slots[n0+i])
+		if lib.Chance(r, 0.25) { // a write far away instead: grows the segment tree above the existing buckets
+			f = b + lib.Pick(r, []int64{100, 300, 1000}) + 10*int64(r.Intn(10))
+		}
+		in.Steps = append(in.Steps, Step{Kind: "put", Name: name, From: f, Until: f + 10, Stacks: st(5 + i),
+			Tick: lib.Pick(r, []int{1, 1, 1, 2}), Quiet: true})
+	}
+	switch r.Intn(3) {
+	case 0:
+		in.Steps = append(in.Steps, Step{Kind: "evict", Cache: "trees", Num: 1, Den: 1})
+	default:
+		in.Steps = append(in.Steps, Step{Kind: "restart"})
+	}
+	if lib.Chance(r, 0.4) {
+		f := b + 10*int64(slots[n0+nt])
+		in.Steps = append(in.Steps, Step{Kind: "put", Name: name, From: f, Until: f + 10, Stacks: st(9)})
+		in.Steps = append(in.Steps, Step{Kind: "restart"})
+	}
+	for _, q := range [][2]int64{{0, 100}, {0, 1000}, {-100, 200}, {0, 50}} {
+		in.Queries = append(in.Queries, Query{Name: name, From: b + q[0], Until: b + q[1]})
+	}
+	return in
+}
+
 func gen(r *rand.Rand, idx int, tier string) Input {
-	switch idx % 8 {
+	switch idx % 9 {
+	case 8:
+		return genWbTick(r)
 	case 7:
 		return genAligned(r)
 	case 3:
@@ -713,7 +812,7 @@ func gen(r *rand.Rand, idx int, tier string) Input {
 		return genAvg(r)
 	}
 	in := Input{Stream: "plain"}
-	if idx%8 == 5 {
+	if idx%9 == 5 {
 		in.Stream = "writeback"
 	}
 	// series: 1-3 apps, 1-3 series each
